@@ -38,10 +38,10 @@ func (m c19) Run(ctx *core.Ctx) {
 	if ctx.Tier == "thorough" {
 		L = 5
 	}
-	runStateWorkload(ctx, m.Exec, histKinds{setters: true, resolve: true, clone: true}, tierN(ctx.Tier, 400_000, 25_000_000), tierN(ctx.Tier, 400_000, 25_000_000), L)
+	runStateWorkload(ctx, m.Exec, histKinds{setters: true, resolve: true, clone: true}, tierN(ctx.Tier, 1_000_000, 25_000_000), tierN(ctx.Tier, 1_000_000, 25_000_000), L)
 	// parsers with custom special-scheme tables, interleaved in the same process
 	r := ctx.Rng
-	n := split(tierN(ctx.Tier, 100_000, 4_000_000), ctx.Shard, ctx.NShards)
+	n := split(tierN(ctx.Tier, 300_000, 4_000_000), ctx.Shard, ctx.NShards)
 	for i := int64(0); i < n; i++ {
 		in := gen.Pick(r, []string{"http://h/", "http://h:80/", "http://h:8080/", "gopher://h/", "gopher://h:70/", "gopher://h:7070/x", "https://h:443/", "file:///x", "file://h/x", "ws://h:81/"})
 		if r.IntN(2) == 0 {
